@@ -311,35 +311,46 @@ def apalache_inductive(env):
 
 
 def tlaps_proof(env):
-    """TLAPS proof (tlapm) of specs/tlaps/ReadinessProof.tla: the no-lost-wake-up invariant of the sub-waker protocol is
-    inductive for an ARBITRARY number of children (the Apalache check bounds N by 5, the TLC runs bound everything).
-    Spec-only, cached by the content of the module."""
+    """TLAPS proofs (tlapm) in specs/tlaps: ReadinessProof.tla (the no-lost-wake-up invariant of the sub-waker protocol is
+    inductive for an ARBITRARY number of children; the Apalache check bounds N by 5, the TLC runs bound everything) and
+    NestProof.tla (the same for a combinator nested in another one: inner bit => outer bit => caller woken).
+    Spec-only, cached by the content of the modules."""
     SPECS = env["SPECS"]
     d = os.path.join(SPECS, "tlaps")
     root = os.path.dirname(SPECS)
     cdir = os.path.join(root, "work", "l2cache")
     os.makedirs(cdir, exist_ok=True)
-    h = hashlib.sha1(open(os.path.join(d, "ReadinessProof.tla"), "rb").read()).hexdigest()[:16]
-    cpath = os.path.join(cdir, "tlaps_ReadinessProof_%s.json" % h)
+    mods = ["ReadinessProof.tla", "NestProof.tla"]
+    h = hashlib.sha1(b"".join(open(os.path.join(d, m), "rb").read() for m in mods)).hexdigest()[:16]
+    cpath = os.path.join(cdir, "tlaps_proofs_%s.json" % h)
     if os.path.exists(cpath) and not os.environ.get("VERIF_NO_L2_CACHE"):
         r = json.load(open(cpath))
         r["reused_from_cache"] = True
         return r
     t0 = time.time()
+    total, ok, per, tail = 0, True, {}, ""
+    for mname in mods:
+        subprocess.run(["rm", "-rf", os.path.join(d, ".tlacache")])
+        p = subprocess.run(["tlapm", "--threads", "4", "--cleanfp", "--nofp", mname], cwd=d, capture_output=True, text=True, timeout=1800)
+        out = p.stdout + p.stderr
+        m = re.search(r"All (\d+) obligations? proved", out)
+        good = bool(m) and p.returncode == 0
+        per[mname] = int(m.group(1)) if m else 0
+        total += per[mname]
+        ok = ok and good
+        if not good:
+            tail = out[-1500:]
     subprocess.run(["rm", "-rf", os.path.join(d, ".tlacache")])
-    p = subprocess.run(["tlapm", "--threads", "4", "--cleanfp", "--nofp", "ReadinessProof.tla"], cwd=d, capture_output=True, text=True, timeout=1800)
-    out = p.stdout + p.stderr
-    m = re.search(r"All (\d+) obligations? proved", out)
-    res = dict(module="ReadinessProof", kind="proof (TLAPS)", ok=bool(m) and p.returncode == 0,
-               obligations=int(m.group(1)) if m else 0, discharged=int(m.group(1)) if m else 0,
-               secs=round(time.time() - t0, 1), reused_from_cache=False,
-               statement="THEOREM Spec => []NoLostWake for every N >= 1: a set readiness bit of a child the scan has passed (or any set bit while "
-                         "parked, unless the consumer is about to poll again on its own) implies that the waker of the most recent poll has been invoked")
-    subprocess.run(["rm", "-rf", os.path.join(d, ".tlacache")])
-    if res["ok"]:
+    res = dict(module="ReadinessProof, NestProof", kind="proof (TLAPS)", ok=ok, obligations=total, discharged=total if ok else 0,
+               per_module=per, secs=round(time.time() - t0, 1), reused_from_cache=False,
+               statement="ReadinessProof: THEOREM Spec => []NoLostWake for every N >= 1 (a set readiness bit of a child the scan has passed, or "
+                         "any set bit while parked, implies that the waker of the most recent poll has been invoked, unless the consumer is about "
+                         "to poll again on its own).  NestProof: THEOREM Spec => []NoLostWakeNested (inner bit => outer slot bit => caller woken) "
+                         "for a combinator nested in another one, every N >= 1")
+    if ok:
         json.dump(res, open(cpath, "w"))
     else:
-        res["output_tail"] = out[-1500:]
+        res["output_tail"] = tail
     return res
 
 
@@ -360,7 +371,7 @@ def prewarm(env, tier="quick"):
 
     bad = []
     prf = tlaps_proof(env)
-    env["log"]("  TLAPS ReadinessProof: %d obligations, %s (%.1fs)" % (prf["obligations"], "all proved" if prf["ok"] else "ERROR", prf["secs"]))
+    env["log"]("  TLAPS ReadinessProof + NestProof: %d obligations, %s (%.1fs)" % (prf["obligations"], "all proved" if prf["ok"] else "ERROR", prf["secs"]))
     if not prf["ok"]:
         bad.append(("ReadinessProof", "proof", prf.get("output_tail", "")))
     ind = apalache_inductive(env)
